@@ -387,6 +387,83 @@ def job_discrete(mode, nval, tier):
     return out
 
 
+WRAPPERS = {
+    "binary": ("array_discrete", {}),
+    "discrete": ("array_discrete", {"values": [0.0, 1.0, 2.0], "thresholds": [-0.5, 0.5]}),
+    "zinnharvey": ("array_zinnharvey", {}),
+    "normal_force_moments": ("array_force_moments", {}),
+    "normal_to_uniform": ("array_to_uniform", {}),
+    "normal_to_arcsin": ("array_to_arcsin", {}),
+    "normal_to_uquad": ("array_to_uquad", {}),
+    "normal_to_lognormal": ("array_to_lognormal", {}),
+    "boxcox": ("array_boxcox", {}),
+}
+
+
+def job_wrapper(method, process, keep_mean, tier):
+    """Field.transform wrappers: what the array function is told about the values it sees (mean, variance) is true of the
+    values it is handed, and pre-/post-processing are inverse to each other (checked with the array function replaced by a
+    recording identity)"""
+    gs = _setup()
+    import gstools.transform.field as tf
+
+    T = core.tier_timeout(tier)
+    f = [real("f0"), real("f1")]
+    m, t, v, n = sym.reals("mean trend var nug")
+    wv = {str(s_.e): s_ for s_ in f + [m, t, v, n]}
+    rb = ("wrapper", lambda vals: {"method": method, "process": process, "keep_mean": keep_mean, "values": vals})
+    tag = f"C19/wrapper/{method}/process={process}/keep_mean={keep_mean}"
+    out = []
+    arrname, kw = WRAPPERS[method]
+
+    def run():
+        sym.assume(v > 0)
+        sym.assume(n >= 0)
+        seen = []
+
+        def spy(data, **kwargs):
+            seen.append((rnp.array(data, dtype=object).copy(), dict(kwargs)))
+            return data
+
+        tf.__dict__[arrname] = spy
+        model = gs.Gaussian(dim=1, var=v, len_scale=2.0, nugget=n)
+        fld = gs.field.Field(model, mean=m, trend=(t if process else None))
+        fld(rnp.array([[0.0, 1.0]]), field=rnp.array(f, dtype=object), post_process=False)
+        r = fld.transform(method, store=False, process=process, keep_mean=keep_mean, **kw)
+        return seen, rnp.array(r, dtype=object)
+
+    n_ok = 0
+    for pi, p in enumerate(explore(run, max_paths=16)):
+        base = f"{tag}/path{pi}"
+        if p.exc is not None:
+            out.append(rec(base, "error", detail=f"{p.exc!r} {p.tb}"))
+            continue
+        n_ok += 1
+        seen, r = p.out
+        if len(seen) != 1:
+            out.append(rec(base + "/array function called once", "sat", witness={}, replay={"kind": "wrapper", "inputs": rb[1]({})}, detail=str(len(seen))))
+            continue
+        data, kws = seen[0]
+        removed = (t.e if process else 0) + (m.e if (process and not keep_mean) else 0)
+        mean_seen = z3.RealVal(0) if (process and not keep_mean) else m.e
+        for i in range(2):
+            out.append(prove(f"{base}/values handed to the array function[{i}] == field - trend - (mean unless kept)", p.conds, lift(data[i]) == f[i].e - removed, T, witness_vars=wv, replay=rb, pairwise=False))
+            out.append(prove(f"{base}/identity array function: result[{i}] == stored field (pre- and post-processing are inverse)", p.conds, lift(r[i]) == f[i].e, T, witness_vars=wv, replay=rb, pairwise=False))
+        if "mean" in kws:
+            out.append(prove(f"{base}/mean told to the array function == mean of the values it sees", p.conds, lift(kws["mean"]) == mean_seen, T, witness_vars=wv, replay=rb, pairwise=False))
+        elif method not in ("normal_to_lognormal", "boxcox", "binary"):
+            out.append(rec(base + "/mean passed", "sat", witness={}, replay={"kind": "wrapper", "inputs": rb[1]({})}))
+        if "var" in kws:
+            out.append(prove(f"{base}/variance told to the array function == sill", p.conds, lift(kws["var"]) == v.e + n.e, T, witness_vars=wv, replay=rb, pairwise=False))
+        if method == "binary":
+            sq = theory.UF["sqrt"](v.e + n.e)
+            vals, thr = kws.get("values"), kws.get("thresholds")
+            out.append(prove(f"{base}/binary: values == mean -+ sqrt(sill), threshold == mean", p.conds, z3.And(lift(vals[0]) == mean_seen - sq, lift(vals[1]) == mean_seen + sq, lift(thr[0]) == mean_seen), T, witness_vars=wv, replay=rb, pairwise=False))
+    if not n_ok:
+        out.append(rec(tag + "/reach", "vacuous"))
+    return out
+
+
 def jobs(tier, seed):
     js = [Job("continuous", job_continuous, tier), Job("zinnharvey", job_zinnharvey, tier), Job("boxcox", job_boxcox, tier)]
     for n in (2, 3) + ((4,) if tier == "thorough" else ()):
@@ -394,11 +471,59 @@ def jobs(tier, seed):
     for mode in ("arithmetic", "equal", "custom"):
         for nval in (2, 3, 4):
             js.append(Job(f"discrete-{mode}{nval}", job_discrete, mode, nval, tier))
+    for method in WRAPPERS:
+        for process in (False, True):
+            for keep_mean in (True, False):
+                js.append(Job(f"wrapper-{method}-{int(process)}{int(keep_mean)}", job_wrapper, method, process, keep_mean, tier))
     return js
 
 
 # --------------------------------------------------------------------------
 # replays (concrete, scipy reference distributions)
+
+
+def replay_wrapper(inputs):
+    import numpy as np
+    import gstools as gs
+    import gstools.transform.field as tf
+
+    method, process, keep_mean, v = inputs["method"], bool(inputs["process"]), bool(inputs["keep_mean"]), inputs.get("values") or {}
+    g = lambda k, d: float(v[k]) if v.get(k) is not None else d
+    f = np.array([g("f0", 0.4), g("f1", -1.3)])
+    mean, trend, var, nug = g("mean", 1.7) or 1.7, g("trend", 0.6), abs(g("var", 1.3)) or 1.3, abs(g("nug", 0.2))
+    arrname, kw = WRAPPERS[method]
+    seen = []
+    orig = getattr(tf, arrname)
+
+    def spy(data, **kwargs):
+        seen.append((np.array(data, dtype=float).copy(), dict(kwargs)))
+        return data
+
+    setattr(tf, arrname, spy)
+    try:
+        model = gs.Gaussian(dim=1, var=var, len_scale=2.0, nugget=nug)
+        fld = gs.field.Field(model, mean=mean, trend=(trend if process else None))
+        fld(np.array([[0.0, 1.0]]), field=f.copy(), post_process=False)
+        r = fld.transform(method, store=False, process=process, keep_mean=keep_mean, **kw)
+    finally:
+        setattr(tf, arrname, orig)
+    bad = []
+    data, kws = seen[0]
+    removed = (trend if process else 0.0) + (mean if (process and not keep_mean) else 0.0)
+    mean_seen = 0.0 if (process and not keep_mean) else mean
+    if not np.allclose(data, f - removed):
+        bad.append(f"values handed over {data.tolist()} != {(f - removed).tolist()}")
+    if not np.allclose(r, f):
+        bad.append(f"identity transform returned {np.asarray(r).tolist()} for field {f.tolist()}")
+    if "mean" in kws and not np.isclose(kws["mean"], mean_seen):
+        bad.append(f"mean told to the array function {kws['mean']} but the values it sees have mean {mean_seen}")
+    if "var" in kws and not np.isclose(kws["var"], var + nug):
+        bad.append(f"var {kws['var']} != sill {var + nug}")
+    if method == "binary":
+        sq = np.sqrt(var + nug)
+        if not (np.isclose(kws["values"][0], mean_seen - sq) and np.isclose(kws["values"][1], mean_seen + sq) and np.isclose(kws["thresholds"][0], mean_seen)):
+            bad.append(f"binary values/threshold {kws['values']} {kws['thresholds']} for mean {mean_seen}")
+    return (not bad), f"{method} process={process} keep_mean={keep_mean} mean={mean}: {bad}"
 
 
 def _g(v, k, d):
@@ -578,6 +703,7 @@ def replay_discrete(inputs):
 
 
 REPLAY = {
+    "wrapper": replay_wrapper,
     "lognormal": replay_lognormal,
     "uniform": replay_uniform,
     "arcsin": replay_arcsin,
